@@ -78,12 +78,14 @@ func (prom *Prometheus) Flags(ctx context.Context) (*FlagsResult, error) {
 	defer prom.locker.unlock(APIPathFlags)
 
 	resultChan := make(chan queryResult)
+	verifTrace("enq", APIPathFlags, resultChan)
 	prom.queries <- queryRequest{
 		query:  flagsQuery{prom: prom, ctx: ctx, timestamp: time.Now()},
 		result: resultChan,
 	}
 
 	result := <-resultChan
+	verifTrace("got", APIPathFlags, resultChan)
 	if result.err != nil {
 		return nil, QueryError{err: result.err, msg: decodeError(result.err)}
 	}
